@@ -135,4 +135,4 @@ def search_spec(draw, max_geos=6, min_geos=1, constraint_p=0.5, allow_budget=Tru
   params = draw(params_spec(panel['n_test'], panel['n_dates'], len(panel['ids']), constraint_p, allow_budget, allow_share, degenerate,
                             tight_sizes))
   return {'panel': panel, 'elig': elig, 'params': params,
-          'history': draw(st.sampled_from([None, None, None, 'shared-data', 'reused-data']))}
+          'history': draw(st.sampled_from([None, None, None, 'shared-data', 'reused-data', 'other-search-first']))}
